@@ -97,7 +97,9 @@ func vInvLogClauses(r *Raft, env *vEnv, w int) []bool {
 	// (getLastEntry then answers with the snapshot) or names the snapshot itself
 	c1 = vAnd(c1, vImplies(empty, vOr(r.lastLogIndex < snap, vAnd(r.lastLogIndex == snap, r.lastLogTerm == r.lastSnapshotTerm))))
 	// the log reaches down to the snapshot (coverage) and is contiguous
-	c2 := vImplies(!empty, vAnd(s.low <= snap+1, s.contiguous(s.low, s.high)))
+	// (entries at or below the snapshot index may have holes: a lagging follower that installed a snapshot keeps its
+	// old tail below the snapshot and appends above it; gap-tolerant stores only)
+	c2 := vImplies(!empty, vAnd(s.low <= snap+1, s.contiguous(vIte64(s.low > snap+1, s.low, snap+1), s.high)))
 	// terms: non-decreasing, bounded by the current term, not below the snapshot's term above it
 	c3 := true
 	for k := 1; k <= w; k++ {
